@@ -539,6 +539,23 @@ class FullOps(TorchCalls):
                 self.clear("p", "arange along the row axis is position dependent", node)
             return TV(kind=kind, axes=(tag or "K",), p=tag != "R", q=tag != "C", s=tag != "C", z=tag != "C", deg=F0, dtype="Int", idx_of=tag,
                       note="arange-full" if len(args) == 1 else "")
+        if fn in ("triu_indices", "tril_indices") and lib == "torch." and len(args) >= 2:
+            # the (row, column) positions of a triangle of an r x c matrix, row-major: kept as the pair of index vectors it unpacks into
+            r_, c_ = tv_of(args[0]), tv_of(args[1])
+            o_ = self.const_int(kwargs.get("offset", args[2] if len(args) > 2 else Const(0)))
+            square = r_ is not None and c_ is not None and r_.size_of == "R" and c_.size_of == "R"
+            name_ = f"{fn[:4]}{o_}" if square and o_ is not None else "tri?"
+            mk_ = lambda which: TV(kind=kind, axes=("K",), p=False, deg=F0, dtype="Int", idx_of="R" if square else None, note=f"{name_}:{which}")
+            return ListV(items=(mk_("rows"), mk_("cols")), kind="tuple")
+        if fn == "pdist" and a0 is not None:
+            # torch.pdist(x, p=2): the distances between the pairs of rows (i < j), listed like the upper triangle read row by row; computed from the differences
+            pv = kwargs.get("p", args[1] if len(args) > 1 else None)
+            pn = 2 if pv is None else (tv_of(pv).poly.const_value() if tv_of(pv) is not None and tv_of(pv).poly is not None else None)
+            raw_ = a0.alias and tuple(a0.axes) == ("R", "C") and a0.origin == frozenset(["matrix"])
+            if pn != 2 and a0.q:
+                self.clear("q", f"pdist with p={pn} is not invariant under orthogonal maps", node)
+            return TV(kind=kind, axes=("K",), p=False, q=a0.q and pn == 2, s=a0.s, z=a0.z, deg=a0.deg, dtype=a0.dtype, origin=a0.origin, gen=a0.gen, rng=a0.rng,
+                      note=f"pdist:{pn}" if raw_ else "")
         if fn in ("tensor", "as_tensor", "from_numpy", "array", "asarray", "ascontiguousarray"):
             if a0 is None:
                 src = args[0] if args else None
